@@ -1,14 +1,11 @@
 // xlate_bitset — translator tie (T) for C11: reads set/bit_set.go of the current tree with
-// go/parser and regenerates, for every function of the file, a Gallina definition over N/bool.
-//
-// Supported Go subset (everything bit_set.go uses; anything else is rendered as the
-// identifier UNSUPPORTED_<what>, which makes the generated file fail to compile and thereby
-// breaks the tie): functions and methods on BitSet[T] (pointer receiver = the stored bits are
-// threaded in and out, value receiver = read only), variadic parameters (lists), `x := e`,
-// `x = e`, `x op= e`, `*s = e`, `for _, v := range xs { … }` (a fold over the variables assigned
-// in the body, with an optional early `return` carried as an option), `if c { return e }`,
-// `return e`, the operators | & &^ ^ == != || && !, calls of other functions of the file, and
-// conversions between the flag type and BitSet[T] (identity on N).
+// go/parser and regenerates, for every function of the file, a Gallina definition over N/bool
+// (BitSetGen.v).  The translation itself is harness/internal/setxl (dialect "bitset"): see the
+// package comment there for the supported Go subset (helper functions/methods, index loops,
+// if/else with any mix of fall-through / return / continue / break, `x op= e`, conversions
+// between the flag type and BitSet[T] as the identity on N, …).  Anything outside the subset is
+// rendered as the identifier UNSUPPORTED_<what>: the generated file then fails to compile and
+// the tie breaks.  coq/ties/Tie_C11.v proves `forall args, gen_F args = model_F args`.
 //
 //	xlate_bitset -src <repo>/set/bit_set.go -out BitSetGen.v
 package main
@@ -16,405 +13,29 @@ package main
 import (
 	"flag"
 	"fmt"
-	"go/ast"
-	"go/parser"
-	"go/token"
 	"os"
-	"sort"
-	"strings"
+
+	"gtverif/internal/setxl"
 )
-
-type fn struct {
-	name     string
-	recv     string // receiver variable name ("" for plain functions)
-	ptrRecv  bool
-	params   []param
-	body     *ast.BlockStmt
-	retBits  bool // result type is BitSet[T] (N) rather than bool
-	hasRet   bool
-	funcs    map[string]*fn
-	problems []string
-	retWrap  func(string) string
-}
-
-type param struct {
-	name     string
-	variadic bool
-}
-
-func (f *fn) bad(what string) string {
-	f.problems = append(f.problems, what)
-	return "UNSUPPORTED_" + strings.Map(func(r rune) rune {
-		if r >= 'a' && r <= 'z' || r >= 'A' && r <= 'Z' || r >= '0' && r <= '9' {
-			return r
-		}
-		return '_'
-	}, what)
-}
-
-func (f *fn) expr(e ast.Expr) string {
-	switch x := e.(type) {
-	case *ast.ParenExpr:
-		return f.expr(x.X)
-	case *ast.Ident:
-		switch x.Name {
-		case "true", "false":
-			return x.Name
-		}
-		return "v_" + x.Name
-	case *ast.BasicLit:
-		if x.Kind == token.INT {
-			return x.Value
-		}
-		return f.bad("literal " + x.Value)
-	case *ast.StarExpr:
-		return f.expr(x.X)
-	case *ast.UnaryExpr:
-		switch x.Op {
-		case token.NOT:
-			return "(negb " + f.expr(x.X) + ")"
-		}
-		return f.bad("unary " + x.Op.String())
-	case *ast.BinaryExpr:
-		l, r := f.expr(x.X), ""
-		// a &^ b and a & ^b are both "and not"
-		if x.Op == token.AND {
-			if u, ok := x.Y.(*ast.UnaryExpr); ok && u.Op == token.XOR {
-				return "(N.ldiff " + l + " " + f.expr(u.X) + ")"
-			}
-		}
-		r = f.expr(x.Y)
-		switch x.Op {
-		case token.OR:
-			return "(N.lor " + l + " " + r + ")"
-		case token.AND:
-			return "(N.land " + l + " " + r + ")"
-		case token.AND_NOT:
-			return "(N.ldiff " + l + " " + r + ")"
-		case token.EQL:
-			return "(N.eqb " + l + " " + r + ")"
-		case token.NEQ:
-			return "(negb (N.eqb " + l + " " + r + "))"
-		case token.LOR:
-			return "(orb " + l + " " + r + ")"
-		case token.LAND:
-			return "(andb " + l + " " + r + ")"
-		}
-		return f.bad("binary " + x.Op.String())
-	case *ast.CallExpr:
-		// conversion BitSet[T](x) / T(x): identity
-		switch fun := x.Fun.(type) {
-		case *ast.IndexExpr:
-			if id, ok := fun.X.(*ast.Ident); ok && id.Name == "BitSet" && len(x.Args) == 1 {
-				return f.expr(x.Args[0])
-			}
-		case *ast.Ident:
-			if fun.Name == "T" && len(x.Args) == 1 {
-				return f.expr(x.Args[0])
-			}
-			if g, ok := f.funcs[fun.Name]; ok && g.recv == "" {
-				return "(" + f.call(g, "", x) + ")"
-			}
-		case *ast.SelectorExpr:
-			if g, ok := f.funcs[fun.Sel.Name]; ok && g.recv != "" && !g.ptrRecv {
-				return "(" + f.call(g, f.expr(fun.X), x) + ")"
-			}
-		}
-		return f.bad("call")
-	}
-	return f.bad(fmt.Sprintf("expr %T", e))
-}
-
-func (f *fn) call(g *fn, recv string, x *ast.CallExpr) string {
-	parts := []string{"gen_" + g.name}
-	if recv != "" {
-		parts = append(parts, recv)
-	}
-	if x.Ellipsis != token.NoPos {
-		for _, a := range x.Args {
-			parts = append(parts, f.expr(a))
-		}
-		return strings.Join(parts, " ")
-	}
-	i := 0
-	for _, p := range g.params {
-		if p.variadic {
-			var items []string
-			for ; i < len(x.Args); i++ {
-				items = append(items, f.expr(x.Args[i]))
-			}
-			parts = append(parts, "["+strings.Join(items, "; ")+"]")
-		} else if i < len(x.Args) {
-			parts = append(parts, f.expr(x.Args[i]))
-			i++
-		}
-	}
-	return strings.Join(parts, " ")
-}
-
-// assigned returns the variables assigned (not declared) in a block, in sorted order.
-func assigned(b *ast.BlockStmt) []string {
-	set := map[string]bool{}
-	declared := map[string]bool{}
-	ast.Inspect(b, func(n ast.Node) bool {
-		if as, ok := n.(*ast.AssignStmt); ok {
-			for _, l := range as.Lhs {
-				name := ""
-				switch t := l.(type) {
-				case *ast.Ident:
-					name = t.Name
-				case *ast.StarExpr:
-					if id, ok := t.X.(*ast.Ident); ok {
-						name = id.Name
-					}
-				}
-				if name == "" || name == "_" {
-					continue
-				}
-				if as.Tok == token.DEFINE {
-					declared[name] = true
-				} else if !declared[name] {
-					set[name] = true
-				}
-			}
-		}
-		return true
-	})
-	out := make([]string, 0, len(set))
-	for k := range set {
-		out = append(out, k)
-	}
-	sort.Strings(out)
-	return out
-}
-
-func tuple(vars []string) string {
-	if len(vars) == 0 {
-		return "tt"
-	}
-	parts := make([]string, len(vars))
-	for i, v := range vars {
-		parts[i] = "v_" + v
-	}
-	if len(parts) == 1 {
-		return parts[0]
-	}
-	return "(" + strings.Join(parts, ", ") + ")"
-}
-
-func pat(vars []string) string {
-	if len(vars) == 0 {
-		return "_"
-	}
-	if len(vars) == 1 {
-		return "v_" + vars[0]
-	}
-	return "'" + tuple(vars)
-}
-
-// stmts renders a statement list in continuation style: `k` is the Gallina term for "fell off
-// the end of this list".
-func (f *fn) stmts(list []ast.Stmt, k string, ind string) string {
-	if len(list) == 0 {
-		return k
-	}
-	rest := func() string { return f.stmts(list[1:], k, ind) }
-	switch s := list[0].(type) {
-	case *ast.AssignStmt:
-		if len(s.Lhs) != 1 || len(s.Rhs) != 1 {
-			return f.bad("multi-assign")
-		}
-		name := ""
-		switch t := s.Lhs[0].(type) {
-		case *ast.Ident:
-			name = t.Name
-		case *ast.StarExpr:
-			if id, ok := t.X.(*ast.Ident); ok {
-				name = id.Name
-			}
-		}
-		if name == "" {
-			return f.bad("assign target")
-		}
-		rhs := ""
-		cur := "v_" + name
-		switch s.Tok {
-		case token.DEFINE, token.ASSIGN:
-			rhs = f.expr(s.Rhs[0])
-		case token.OR_ASSIGN:
-			rhs = "(N.lor " + cur + " " + f.expr(s.Rhs[0]) + ")"
-		case token.AND_ASSIGN:
-			if u, ok := s.Rhs[0].(*ast.UnaryExpr); ok && u.Op == token.XOR {
-				rhs = "(N.ldiff " + cur + " " + f.expr(u.X) + ")"
-			} else {
-				rhs = "(N.land " + cur + " " + f.expr(s.Rhs[0]) + ")"
-			}
-		case token.AND_NOT_ASSIGN:
-			rhs = "(N.ldiff " + cur + " " + f.expr(s.Rhs[0]) + ")"
-		default:
-			return f.bad("assign op " + s.Tok.String())
-		}
-		return "let " + cur + " := " + rhs + " in\n" + ind + rest()
-	case *ast.ReturnStmt:
-		if len(s.Results) != 1 {
-			return f.bad("return arity")
-		}
-		return f.ret(f.expr(s.Results[0]))
-	case *ast.IfStmt:
-		if s.Init != nil || s.Else != nil {
-			return f.bad("if with init/else")
-		}
-		then := f.stmts(s.Body.List, "CONT", ind+"  ")
-		if strings.Contains(then, "CONT") {
-			return f.bad("if body that falls through")
-		}
-		return "if " + f.expr(s.Cond) + " then " + then + "\n" + ind + "else " + rest()
-	case *ast.RangeStmt:
-		if s.Key != nil {
-			if id, ok := s.Key.(*ast.Ident); !ok || id.Name != "_" {
-				return f.bad("range key")
-			}
-		}
-		val, ok := s.Value.(*ast.Ident)
-		if !ok {
-			return f.bad("range value")
-		}
-		vars := assigned(s.Body)
-		// does the body return?
-		returns := false
-		ast.Inspect(s.Body, func(n ast.Node) bool {
-			if _, ok := n.(*ast.ReturnStmt); ok {
-				returns = true
-			}
-			return true
-		})
-		xs := f.expr(s.X)
-		if !returns {
-			body := f.stmts(s.Body.List, tuple(vars), ind+"    ")
-			return "let " + pat(vars) + " := fold_left (fun " + pat(vars) + " v_" + val.Name + " =>\n" + ind + "    " + body +
-				") " + xs + " " + tuple(vars) + " in\n" + ind + rest()
-		}
-		// early return: the accumulator carries (vars, option result); once Some, later
-		// iterations are skipped
-		saved := f.retWrap
-		f.retWrap = func(v string) string { return "(" + tuple(vars) + ", Some " + v + ")" }
-		body := f.stmts(s.Body.List, "("+tuple(vars)+", None)", ind+"      ")
-		f.retWrap = saved
-		return "let '(" + strings.TrimPrefix(pat(vars), "'") + ", early) := fold_left (fun '(" + strings.TrimPrefix(pat(vars), "'") + ", early) v_" + val.Name + " =>\n" +
-			ind + "    match early with Some _ => (" + tuple(vars) + ", early) | None =>\n" + ind + "      " + body + " end) " +
-			xs + " (" + tuple(vars) + ", None) in\n" + ind + "match early with Some r => " + f.ret("r") + " | None =>\n" + ind + rest() + " end"
-	}
-	return f.bad(fmt.Sprintf("stmt %T", list[0]))
-}
-
-// ret renders `return v`: a pointer-receiver method returns (stored bits, v).
-func (f *fn) retBase(v string) string {
-	if f.ptrRecv {
-		return "(v_" + f.recv + ", " + v + ")"
-	}
-	return v
-}
-
-func (f *fn) ret(v string) string {
-	if f.retWrap != nil {
-		return f.retWrap(v)
-	}
-	return f.retBase(v)
-}
 
 func main() {
 	src := flag.String("src", "", "path of bit_set.go")
 	out := flag.String("out", "BitSetGen.v", "output file")
 	flag.Parse()
-	fset := token.NewFileSet()
-	file, err := parser.ParseFile(fset, *src, nil, 0)
+	res, err := setxl.Translate(*src, setxl.Config{
+		Dialect: "bitset",
+		Header: "From Coq Require Import NArith List Bool Arith.\nImport ListNotations.\n" +
+			"From GT Require Import Base.SetLoopTie.\n\n",
+	})
 	if err != nil {
 		fmt.Fprintln(os.Stderr, err)
 		os.Exit(2)
 	}
-	funcs := map[string]*fn{}
-	var order []*fn
-	for _, d := range file.Decls {
-		fd, ok := d.(*ast.FuncDecl)
-		if !ok || fd.Body == nil {
-			continue
-		}
-		f := &fn{name: fd.Name.Name, body: fd.Body, funcs: funcs}
-		if fd.Recv != nil && len(fd.Recv.List) == 1 {
-			r := fd.Recv.List[0]
-			if len(r.Names) == 1 {
-				f.recv = r.Names[0].Name
-			} else {
-				f.recv = "recv"
-			}
-			_, f.ptrRecv = r.Type.(*ast.StarExpr)
-		}
-		for _, p := range fd.Type.Params.List {
-			_, variadic := p.Type.(*ast.Ellipsis)
-			for _, n := range p.Names {
-				f.params = append(f.params, param{n.Name, variadic})
-			}
-		}
-		if fd.Type.Results != nil && len(fd.Type.Results.List) == 1 {
-			f.hasRet = true
-			if id, ok := fd.Type.Results.List[0].Type.(*ast.Ident); !ok || id.Name != "bool" {
-				f.retBits = true
-			}
-		}
-		funcs[f.name] = f
-		order = append(order, f)
-	}
-	// callees first: a function may only call functions defined earlier in the output
-	sort.SliceStable(order, func(i, j int) bool { return calls(order[j], order[i].name) && !calls(order[i], order[j].name) })
-	var b strings.Builder
-	b.WriteString("(* GENERATED by harness/cmd/xlate_bitset from set/bit_set.go of the current tree — do not edit *)\n")
-	b.WriteString("From Coq Require Import NArith List Bool.\nImport ListNotations.\nLocal Open Scope N_scope.\n\n")
-	for _, f := range order {
-		sig := "Definition gen_" + f.name
-		if f.recv != "" {
-			sig += " (v_" + f.recv + " : N)"
-		}
-		for _, p := range f.params {
-			if p.variadic {
-				sig += " (v_" + p.name + " : list N)"
-			} else {
-				sig += " (v_" + p.name + " : N)"
-			}
-		}
-		body := f.stmts(f.body.List, "MISSING_RETURN", "  ")
-		if strings.Contains(body, "MISSING_RETURN") {
-			body = strings.ReplaceAll(body, "MISSING_RETURN", f.bad("missing return"))
-		}
-		b.WriteString(sig + " :=\n  " + body + ".\n\n")
-	}
-	names := make([]string, 0, len(order))
-	for _, f := range order {
-		names = append(names, f.name)
-	}
-	b.WriteString("(* functions translated: " + strings.Join(names, ", ") + " *)\n")
-	if err := os.WriteFile(*out, []byte(b.String()), 0o644); err != nil {
+	if err := os.WriteFile(*out, []byte(res.Text), 0o644); err != nil {
 		fmt.Fprintln(os.Stderr, err)
 		os.Exit(2)
 	}
-	for _, f := range order {
-		for _, p := range f.problems {
-			fmt.Printf("unsupported in %s: %s\n", f.name, p)
-		}
+	for _, p := range res.Problems {
+		fmt.Println("unsupported:", p)
 	}
-}
-
-func calls(f *fn, name string) bool {
-	found := false
-	ast.Inspect(f.body, func(n ast.Node) bool {
-		if c, ok := n.(*ast.CallExpr); ok {
-			switch fun := c.Fun.(type) {
-			case *ast.Ident:
-				found = found || fun.Name == name
-			case *ast.SelectorExpr:
-				found = found || fun.Sel.Name == name
-			}
-		}
-		return true
-	})
-	return found
 }
